@@ -4,9 +4,10 @@ set -e
 cd "$(dirname "$0")"
 export GOFLAGS=-mod=mod GOPROXY=off GOSUMDB=off GOTOOLCHAIN=local
 mkdir -p .bin
-(cd tools && go build -o ../.bin/facts ./cmd/facts && go build -o ../.bin/gotolean ./cmd/gotolean && go build -o ../.bin/instr ./cmd/instr)
+(cd tools && go build -o ../.bin/facts ./cmd/facts && go build -o ../.bin/gotolean ./cmd/gotolean && go build -o ../.bin/instr ./cmd/instr && go build -o ../.bin/access ./cmd/access)
 .bin/facts /repo lean/Gnet/Gen/Facts.lean
 .bin/gotolean /repo lean/Gnet/Gen/Arith.lean
+.bin/access /repo lean/Gnet/Gen/Access.lean
 (cd lean && lake build)
 cp /repo/go.sum harness/go.sum
 # the drivers need build-time overlays and are built by the checks themselves
